@@ -66,10 +66,23 @@ func (ff *FuncFacts) PhiIneqs() []*Affine {
 // ProveGE proves x - y >= k at block b from the dominating facts, loop
 // invariants of monotone phis and extra facts.
 func (ff *FuncFacts) ProveGE(b *ssa.BasicBlock, x, y *Affine, k int64, extra ...Fact) bool {
-	fs := append(append(FactSet{}, ff.At(b)...), extra...)
+	fs := append(append(FactSet{}, ff.AtRefined(b)...), extra...)
+	fs = append(fs, ff.Assume...)
+	for _, im := range ff.Implications {
+		if fs.Has(im.If) {
+			fs = append(fs, im.Then...)
+		}
+	}
 	g := x.Sub(y)
 	g.C -= k
 	return ff.proveCore(fs, b, g)
+}
+
+// Implication is a conditional fact supplied by a rule (a callee postcondition
+// that was itself established as an obligation): wherever If holds, Then holds.
+type Implication struct {
+	If   Fact
+	Then FactSet
 }
 
 // proveCore proves g >= 0 from fs (and, when b is given, from facts that hold at b).
